@@ -36,6 +36,24 @@ CLAIMED['C02'] = dict(
     note="Trusted: TLC, the row projection of drivers/carve.py. Dev-rank clause uses the Loose reading (no strict inversion).",
     technique="TLA+ design model checked by TLC + TLC trace validation of transform outputs of real fits",
     design_ref="DESIGN.md §5.5, §6 C02")
+
+EST_NOTE = ("Trusted: TLC, the projection / encoding in harness/acverif/drivers/estimator.py (integer codes, label interning), the history generators "
+            "in drivers/est_gen.py. Histories are seeded random samples of the input space; the design model is exhaustive only for one feature over 3 values.")
+def est(text, design_ref):
+    return dict(text="Design: TLC model-checks specs/Estimator.tla (life-cycle of one fitted feature: merges, fit, single-cell transforms incl. unseen / missing / "
+                     "out-of-range cells, valid manual edits, reload, refused calls) with the invariants of this property. Binding (code->spec): " + text +
+                     " Every recorded call is judged by TLC with specs/EstimatorTrace.tla from the previously observed state using the operators of EstimatorOps.tla / GL.tla.",
+                note=EST_NOTE, technique="TLA+ life-cycle model checked by TLC + TLC trace validation of recorded call histories of the real objects",
+                design_ref=design_ref)
+CLAIMED['C04'] = est("fit -> transform(training frame) -> JSON reload -> transform histories on all 10 discretizer / carver classes; TLC recomputes the group and label of every row from the observed values_orders.", "DESIGN.md §5.2, §6 C04")
+CLAIMED['C05'] = est("fit -> transforms of derived frames (boundaries and their nextafter neighbours, out of range, huge magnitudes, unseen categories, injected missing values, empty / single-row frames); TLC decides rejection (and the feature to be named) or the label of every cell.", "DESIGN.md §5.2, §6 C05")
+CLAIMED['C06'] = est("fit -> (edits) -> json round trip -> the same probe frames on original and reloaded object compared cell by cell, summary and re-serialised JSON compared.", "DESIGN.md §5.2, §6 C06")
+CLAIMED['C07'] = est("fit_transform vs fit+transform on twin objects; shuffled sequences of transforms of the training frame, row subsets, permutations, re-indexed copies and probe frames, each output checked row by row, state / inputs / index / columns unchanged.", "DESIGN.md §5.2, §6 C07")
+CLAIMED['C08'] = est("fits of every class on degenerate shapes (constant, all-missing, near-unique, equally rare discrete values, tiny samples, spikes): outcome in {ok, AssertionError}, every values_orders entry a well-formed ordered partition covering the training values, attributes coherent, dropped columns untouched.", "DESIGN.md §5.2, §6 C08")
+CLAIMED['C16'] = est("fit -> summary() / summary(feature) (-> reload -> summary()) histories judged against the observed values_orders; history() clauses (raw row, tested rows, last viable row = fitted grouping) are judged on real carver fits with specs/CarverTrace.tla (design: Inv_C16_hist of Carver.tla).", "DESIGN.md §5.2, §5.5, §6 C16")
+CLAIMED['C17'] = est("fit -> sequences of valid update_discretizer edits, each followed by transform, summary and reload+transform; TLC recomputes the edited values_orders with the GroupedList operators (UpdateVo) and compares; design invariant Inv_C17_Edit states the partition effect of an edit.", "DESIGN.md §5.2, §6 C17")
+CLAIMED['C19'] = est("malformed calls of every listed class injected before and after a successful fit on the 6 anchored classes: outcome must be AssertionError, projected state / JSON / transform(training frame) unchanged.", "DESIGN.md §5.2, §6 C19")
+
 NOT_YET = "check not built yet in this round (planned, see DESIGN.md §9); no claim is made"
 
 checks, na = [], []
